@@ -91,13 +91,15 @@ def scope_forms():
         for c in itertools.combinations(UNIVERSE, n):
             out.append(" ".join(c))
     out += ["b a", "a  b", " a", "a\tb", ["a", "b"], ["c"], "a a", "A", ["a b"]]
+    # scope names that contain a required name without being it
+    out += ["ab", "ab b", "xa", "user:email readonly", "aa bb", ["ab"], "a:b"]
     return out
 
 
 def required_forms():
     return [None, "", [], "a", "b", "d", "a b", "b a", "a c", "a b c d", ["a"], ["a", "b"], ["a b", "c"],
             ["a b c d"], ["d", "a c"], ["a", "a"], ["c", "b", "a"], ["a  b"], ["b c", "c d"], ["a b c", "d"],
-            ["x"], ["a x", "b"], ["A"]]
+            ["x"], ["a x", "b"], ["A"], "user", "read", ["user", "email"], "user:email", ["a", "user"]]
 
 
 def run_bearer(ctx):
